@@ -13,8 +13,17 @@ Inductive cm_op (F : Type) :=
 Arguments CTransform {F}. Arguments CTagAs {F}. Arguments CSetAttr {F}. Arguments CGetAttr {F}. Arguments CDoTransform {F}.
 
 (* what a call gives back: nothing (the delegating methods and tag_as return None) or points *)
-Inductive cm_out (F : Type) := OutNone | OutPoints (pts : list (vec3 F)).
-Arguments OutNone {F}. Arguments OutPoints {F}.
+(* OutOther: some other Python object (a bound method, the tag dict, ...), see attr_shadowed below *)
+Inductive cm_out (F : Type) := OutNone | OutPoints (pts : list (vec3 F)) | OutOther.
+Arguments OutNone {F}. Arguments OutPoints {F}. Arguments OutOther {F}.
+
+(* __getattr__ is only consulted when ordinary attribute lookup fails: a tag whose name is a method of the class or
+   one of the four instance attributes is never converted on an attribute read, Python returns the attribute itself *)
+Definition class_attributes : list string :=
+  ["append_transform"; "uniform_scale"; "non_uniform_scale"; "convert_units"; "flip"; "translate"; "reorient"; "rotate";
+   "tag_as"; "do_transform"; "_tags_to_indices"; "_points_tag"; "_points"; "_transform";
+   "__dict__"; "__class__"; "__doc__"; "__module__"; "__init__"; "__setattr__"; "__getattr__"]%string.
+Definition attr_shadowed (name : string) : bool := existsb (String.eqb name) class_attributes.
 
 (* _tags_to_indices: a dict; the most recent binding of a name is found first *)
 Fixpoint tag_lookup (name : string) (tags : list (string * nat)) : option nat :=
@@ -62,6 +71,12 @@ Section CoordMgr.
         | Some _ => (MkCM (cm_tags st) (Some (name, pts)) (cm_tr st), Ok OutNone)
         end
     | CGetAttr name =>
+        if attr_shadowed name then
+          (* the attribute itself: for "_points" the raw stored array (None before any assignment), else an object *)
+          (st, Ok (if String.eqb name "_points"
+                   then match cm_points st with Some (_, pts) => OutPoints pts | None => OutOther end
+                   else OutOther))
+        else
         match cm_points st with
         | None => (st, Raise ValueError)
         | Some (tag, pts) => (st, rmap OutPoints (do_transform st pts tag name))
